@@ -520,7 +520,7 @@ func (r *c44Rec) class(s string) {
 }
 
 type c44Result struct {
-	known string // first known-divergence situation met (evaluation stops there when stopAtKnown)
+	known string // first situation of an open finding met (evaluation stops there when stopAtKnown)
 	err   error
 	rec   c44Rec
 }
@@ -771,10 +771,11 @@ func c44Eval(c c44Case, stopAtKnown bool) (res c44Result) {
 				return false
 			}
 			rec.class("known:" + key)
-			if res.known == "" {
-				res.known = key
+			if !stopAtKnown || !c44Active()[key] {
+				return false // not (or no longer) an open finding: the call is compared like any other
 			}
-			return stopAtKnown
+			res.known = key
+			return true
 		}
 		agree := func(ne, me error) error {
 			if (ne == nil) != (me == nil) {
@@ -1120,6 +1121,32 @@ func c44OpenSituation(o c44Op, clean string, pre byte, nativeErr error) string {
 		return "c44-open-dir-for-writing"
 	}
 	return ""
+}
+
+// c44Active returns the keys of the open C44 findings (the runner skips exactly
+// those; a situation whose finding is fixed or unlisted must be compared).
+var c44ActiveKeys map[string]bool
+
+func c44Active() map[string]bool {
+	if c44ActiveKeys != nil {
+		return c44ActiveKeys
+	}
+	c44ActiveKeys = map[string]bool{}
+	b, err := os.ReadFile(os.Getenv("VP_KNOWN"))
+	if err != nil {
+		return c44ActiveKeys
+	}
+	var kf struct {
+		Findings []struct{ Key, Property, Status string }
+	}
+	if json.Unmarshal(b, &kf) == nil {
+		for _, f := range kf.Findings {
+			if f.Property == "C44" && f.Status == "open" {
+				c44ActiveKeys[f.Key] = true
+			}
+		}
+	}
+	return c44ActiveKeys
 }
 
 // The runner asks Known before Prop; both need the same evaluation, so Known keeps
